@@ -363,13 +363,19 @@ func NewMeasurementInProcess() *MeasurementInProcess {
 	return &MeasurementInProcess{tables: make(map[string]struct{}, defaultCap)}
 }
 
+// MergeRecovery must be deferred directly (defer MergeRecovery(...)); called from inside another deferred function
+// its recover() returns nil.
 func MergeRecovery(path string, name string, ctx *MergeContext) {
 	if err := recover(); err != nil {
-		panicInfo := fmt.Sprintf("[Merge Panic:err:%s, name:%s, seqs:%v, path:%s] %s",
-			err, name, ctx.order.seq, path, debug.Stack())
-		errMsg := errno.NewError(errno.CompactPanicFail)
-		log.Error(panicInfo, zap.Error(errMsg))
+		logMergePanic(err, path, name, ctx)
 	}
+}
+
+func logMergePanic(err interface{}, path string, name string, ctx *MergeContext) {
+	panicInfo := fmt.Sprintf("[Merge Panic:err:%s, name:%s, seqs:%v, path:%s] %s",
+		err, name, ctx.order.seq, path, debug.Stack())
+	errMsg := errno.NewError(errno.CompactPanicFail)
+	log.Error(panicInfo, zap.Error(errMsg))
 }
 
 func FillNilCol(col *record.ColVal, size int, ref *record.Field) {
